@@ -42,10 +42,13 @@ static std::string obs_diff(const Obs &a, const Obs &b) {
     if (a.rc != b.rc) return std::string("cif_parse returned ") + cm::code_name(a.rc) + " for the LF document and " + cm::code_name(b.rc) + " for the variant";
     if (a.errs.size() != b.errs.size()) {
         std::string s = "the LF document reports " + std::to_string(a.errs.size()) + " errors, the variant " + std::to_string(b.errs.size()) + ": LF [";
-        for (size_t i = 0; i < a.errs.size() && i < 6; i++) s += std::string(cm::code_name(a.errs[i].first)) + "@" + std::to_string(a.errs[i].second) + " ";
+        // show the lists from just before the first difference
+        size_t d = 0; while (d < a.errs.size() && d < b.errs.size() && a.errs[d] == b.errs[d]) d++;
+        size_t from = d > 2 ? d - 2 : 0;
+        for (size_t i = from; i < a.errs.size() && i < from + 8; i++) s += std::string(cm::code_name(a.errs[i].first)) + "@" + std::to_string(a.errs[i].second) + " ";
         s += "] variant [";
-        for (size_t i = 0; i < b.errs.size() && i < 6; i++) s += std::string(cm::code_name(b.errs[i].first)) + "@" + std::to_string(b.errs[i].second) + " ";
-        return s + "]";
+        for (size_t i = from; i < b.errs.size() && i < from + 8; i++) s += std::string(cm::code_name(b.errs[i].first)) + "@" + std::to_string(b.errs[i].second) + " ";
+        return s + "] (lists shown from error #" + std::to_string(from + 1) + ")";
     }
     for (size_t i = 0; i < a.errs.size(); i++) if (a.errs[i] != b.errs[i])
         return "error #" + std::to_string(i + 1) + " is " + cm::code_name(a.errs[i].first) + " at line " + std::to_string(a.errs[i].second) + " for the LF document but " + cm::code_name(b.errs[i].first) + " at line " + std::to_string(b.errs[i].second) + " for the variant";
@@ -73,6 +76,13 @@ static bool valid_utf8(const std::string &b) {
         i += len;
     }
     return true;
+}
+
+static bool decode_error_expected(const std::string &b) {
+    if (!valid_utf8(b)) return true;
+    if (b.compare(0, 10, "#\\#CIF_2.0") == 0) return false;
+    for (unsigned char ch : b) if (ch >= 0x80) return true;
+    return false;
 }
 
 // variant construction ---------------------------------------------------------------------------------------------------------
@@ -112,7 +122,8 @@ static std::string with_padding(const std::string &lf_doc, size_t pad, size_t pa
 
 static std::string run_case(const CaseFile &c) {
     const std::string base = c.get("lf");                   // LF-terminated base document (first line: magic comment)
-    int kind = (int) c.geti("variant"); bool utf16 = c.geti("utf16") != 0 && valid_utf8(base);   // re-encoding needs well-formed input
+    int kind = (int) c.geti("variant"); bool utf16 = c.geti("utf16") != 0 && valid_utf8(base)     // re-encoding needs well-formed input,
+                                                    && base.compare(0, 10, "#\\#CIF_2.0") == 0;   // and a CIF 2.0 document: under CIF 1.1 rules the byte-order mark itself is an error
     long target = c.geti("target"), delta = c.geti("delta");
     std::vector<int> mix, chunks;
     { std::istringstream in(c.get("mix")); int v; while (in >> v) mix.push_back(v); }
@@ -149,6 +160,7 @@ static std::string run_case(const CaseFile &c) {
     // labels
     label(kind == V_LF ? "variant:lf" : kind == V_CRLF ? "variant:crlf" : kind == V_CR ? "variant:cr" : "variant:mixed");
     if (utf16) label("utf16");
+    if (!base.empty() && base[0] == '\n') label("starts-with-terminator");
     if (!chunks.empty()) label("shortread");
     if (pad) label("padded");
     if (pad2) label("padded-twice");
@@ -216,9 +228,15 @@ int main(int argc, char **argv) {
                 bytes += tf;
             }
             if (*g::chance(35)) { auto ed = *rc::gen::container<std::vector<int>>((size_t) (3 * *g::range(1, 3)), g::range(0, 99999)); bytes = mutate(bytes, ed); }
+            // the very first character of the input is handled by its own code (get_first_char): let it be a line terminator sometimes
+            // (the version comment is then no longer at the start of the file, so the document is read by CIF 1.1 rules -- with whatever
+            // errors that entails, identically for every terminator style)
+            if (*g::chance(12)) bytes = (*g::chance(50) ? "\n" : "\n\n") + bytes;
             // known finding F-DECODE-LINE: a decoding error (invalid UTF-8) is reported with the line the scanner had reached when the
             // buffer was filled, which depends on the fill boundaries.  Such documents are excluded (counted): the stray bytes are replaced.
-            if (!valid_utf8(bytes)) { count_excluded("F-DECODE-LINE"); std::string f; for (unsigned char ch : bytes) f += ch >= 0x80 ? '?' : (char) ch; bytes = f; }
+            // (The same holds for any non-ASCII byte of a document read by CIF 1.1 rules, i.e. without the version comment at its very
+            // start: it is decoded with the default encoding, which is US-ASCII in this environment.)
+            if (decode_error_expected(bytes)) { count_excluded("F-DECODE-LINE"); std::string f; for (unsigned char ch : bytes) f += ch >= 0x80 ? '?' : (char) ch; bytes = f; }
             CaseFile c; c.set("lf", bytes);
             c.seti("variant", *rc::gen::weightedElement<int>({{2, V_LF}, {5, V_CRLF}, {3, V_CR}, {4, V_MIXED}}));
             { std::string m; int n = *g::range(1, 12); for (int i = 0; i < n; i++) m += std::to_string(*g::range(0, 2)) + " "; c.set("mix", m); }
@@ -251,6 +269,6 @@ int main(int argc, char **argv) {
         });
     };
     e.replay = run_case;
-    e.classify = [](const CaseFile &c) { return valid_utf8(c.get("lf")) ? std::string() : std::string("F-DECODE-LINE"); };
+    e.classify = [](const CaseFile &c) { return decode_error_expected(c.get("lf")) ? std::string("F-DECODE-LINE") : std::string(); };
     return engine_main(argc, argv, e);
 }
